@@ -1,4 +1,57 @@
-(* placeholder until the proofs are integrated *)
-From LLTD Require Import BufProofs.
-Theorem C04_placeholder : True. Proof. exact I. Qed.
-Print Assumptions C04_placeholder.
+(* C04: decoding a Hello yields the attributes the platform supplied; Linux getters.
+   Statements only: each theorem restates the full type of a lemma proved in coq/proofs and is closed by
+   `exact`; Print Assumptions beneath.  Regenerate with bin/genprops.py after a lemma changes. *)
+From LLTD Require Import BlockFun SpecTx TxProofs.
+
+Theorem C04_hello_decodes_to_attributes :
+  forall (c : pcfg) (g : gcfg),
+  cfg_wf c g ->
+  forall (h : hdr) (gen : N),
+  match hello_fields (hello_frame c g h gen) with
+  | Some hf =>
+  decode_attrs (hf_props hf) = attrs_of c g /\
+  hf_edst hf = [255%N; 255%N; 255%N; 255%N; 255%N; 255%N] /\
+  hf_rdst hf = [255%N; 255%N; 255%N; 255%N; 255%N; 255%N] /\
+  hf_esrc hf = mac_bytes (own c) /\
+  hf_rsrc hf = mac_bytes (own c) /\
+  hf_seq hf = 0%N /\
+  hf_gen hf = (gen mod 65536)%N /\
+  hf_cur hf = mac_bytes (h_rsrc h) /\ hf_app hf = mac_bytes (h_esrc h) /\ hf_tos hf = h_tos h
+  | None => False
+  end.
+Proof. exact C04_roundtrip. Qed.
+Print Assumptions C04_hello_decodes_to_attributes.
+
+Theorem C04_wireless_only_on_wireless :
+  forall (c : pcfg) (g : gcfg) (ps : list (N * list N)),
+  parse_props (concat (hello_tlvs c g)) = Some ps ->
+  (forall t : N, In t [4%N; 6%N; 9%N; 13%N] -> In t (map fst ps) <-> c_wifi c <> None) /\
+  (In 5%N (map fst ps) <-> c_wifi c <> None /\ c_bssid c <> None).
+Proof. exact C04_wireless_gate. Qed.
+Print Assumptions C04_wireless_only_on_wireless.
+
+Theorem C04_property_list_parses :
+  forall (c : pcfg) (g : gcfg), parse_props (concat (hello_tlvs c g)) = Some (hello_props c g).
+Proof. exact parse_props_hello. Qed.
+Print Assumptions C04_property_list_parses.
+
+Theorem C04_be32_roundtrip :
+  forall v : N, be32_dec (be32 v) = (v mod 4294967296)%N.
+Proof. exact be32_roundtrip. Qed.
+Print Assumptions C04_be32_roundtrip.
+
+Theorem C04_signed_roundtrip :
+  forall z : Z, (-2147483648 <= z < 2147483648)%Z -> s32_dec (be32 (u32_of_Z z)) = z.
+Proof. exact s32_roundtrip. Qed.
+Print Assumptions C04_signed_roundtrip.
+
+Theorem C04_linux_platform_layer :
+  forall i : Sys.linux_iface,
+  Sys.linux_getters i =
+  (Sys.li_mac i, Sys.li_mtu i, Sys.li_iftype i, (Sys.li_speed i mod 4294967296 / 100)%N,
+  Sys.linux_flags i) /\
+  (N.land (Sys.linux_flags i) 8192 <> 0%N <-> N.land (Sys.li_medium i) 16 <> 0%N) /\
+  (N.land (Sys.linux_flags i) 2048 <> 0%N <-> N.land (Sys.li_flags i) 8 <> 0%N) /\
+  In (Sys.linux_flags i) [0%N; 2048%N; 8192%N; 10240%N].
+Proof. exact C04_linux. Qed.
+Print Assumptions C04_linux_platform_layer.
